@@ -345,6 +345,14 @@ def check(ctx):
             okret = info_a == ("proj", call, 0) and ms_a == ("proj", call, 1)
         ctx.ob("C05.R5", st, "the outcome carries mh_step's info and state unchanged",
                okret, detail=short(rt) if rt else "no return")
+        edits = [(loc, node_) for loc, _, node_, _ in r.stores
+                 if loc[0] in ("a", "s") and any(x == call for x in subterms(loc[1]))]
+        ctx.ob("C05.R5", st, "the kernel does not write into what mh_step returned (the "
+                             "acceptance probability, the moved flag and the error code are "
+                             "mh_step's, not re-derived by the kernel)",
+               not edits, detail=f"stores to {[short(l, 70) for l, _ in edits]}" if edits else "",
+               node=edits[0][1] if edits else None,
+               stmt="store into mh_step's result" if edits else None)
     ctx.require_min("kernels calling mh_step", callers, 3)
     # `self.model` above is the interface the kernel was GIVEN: the builder binds its own
     # interface only to kernels that have none
